@@ -448,6 +448,12 @@ var c18SoloCache = map[string]string{}
 
 // c18Solo is what a program returns when run alone (as thread index ti, so that contents match).
 func c18Solo(ti int, prog []int, lvl int) string {
+	engine.Begin(func() interface{} {
+		progs := make([][]int, ti+1)
+		progs[ti] = prog
+		return c18Case{K: "solo", Progs: progs, Fine: lvl >= 1, Step: lvl >= 2}
+	})
+	defer engine.End()
 	fine := lvl >= 1
 	key := fmt.Sprint(ti, prog, fine)
 	if v, ok := c18SoloCache[key]; ok {
@@ -498,6 +504,12 @@ func init() {
 func c18One(c *engine.Ctx, progs [][]int, r *engine.Run, bound int, lvl int) {
 	c.Evals++
 	fine := lvl >= 1
+	// published for the watchdog: a library call that blocks forever inside a schedule (a leaked semaphore slot, a
+	// channel nobody serves) leaves the worker without progress and without CPU consumption
+	engine.Begin(func() interface{} {
+		return c18Case{Progs: progs, Sched: r.Choices(), Bound: bound, Fine: fine, Step: lvl >= 2}
+	})
+	defer engine.End()
 	res, s, intact := c18Execute(progs, r, lvl)
 	c.Transitions += int64(s.Points)
 	c.Traces++
